@@ -751,6 +751,26 @@ def extras(ctx, im):
             ok = bool(np.array_equal(np.max(np.abs(u), axis=1), np.asarray(sd[1][0])[rows]))
             ctx.oracle('C02 spectral displacement of a large job == peak |u| of the response series of the same period (==)', ok, {**inputs, 'rows': rows},
                        detail={'s_d': np.asarray(sd[1][0])[rows], 'peaks': np.max(np.abs(u), axis=1)})
+    # integer-typed period containers (with and without a leading 0): each period's spectra depend on that period only and equal those for floats
+    for it in range(4 if ctx.tier == 'quick' else 30):
+        n = rng.randint(20, 120)
+        a = gen.noise_record(rng, n)
+        dti = rng.choice([0.1, 0.25, 0.5])
+        body = sorted(rng.sample([1, 2, 3, 4, 5, 7, 9], rng.randint(1, 3)))
+        for lead in (True, False):
+            pl = ([0] if lead else []) + body
+            xi = rng.choice([0.0, 0.05, 0.3])
+            for cont, obj in (('list of ints', list(pl)), ('tuple of ints', tuple(pl)), ('int64 array', np.array(pl, dtype=np.int64))):
+                ctx.hist('integer periods/' + cont)
+                for fname in ('pseudo_response_spectra', 'true_response_spectra', 'response_series'):
+                    f = getattr(sdof, fname)
+                    ri, rf = call_impl(f, a, dti, obj, xi), call_impl(f, a, dti, np.array(pl, dtype=float), xi)
+                    rb = call_impl(f, a, dti, np.array(body, dtype=float), xi)
+                    ok = ri[0] == rf[0] == 'ok' and all(np.array_equal(np.asarray(x), np.asarray(y)) for x, y in zip(ri[1], rf[1]))
+                    okb = ok and rb[0] == 'ok' and all(np.array_equal(np.asarray(x)[1 if lead else 0:], np.asarray(y)) for x, y in zip(ri[1], rb[1]))
+                    ctx.oracle(f'C02 {fname}: integer-typed period containers give the result for the same periods as floats, and each period depends on that period '
+                               'only (with or without a leading 0)', ok and okb, {'a': a, 'dt': dti, 'periods': pl, 'container': cont, 'xi': xi},
+                               detail={'equals_float_list': bool(ok), 'rows_equal_without_leading_zero': bool(okb)})
     for it in range(4 if ctx.tier == 'quick' else 40):
         n = rng.randint(8, 100)
         dt = pick_dt(rng)
